@@ -104,6 +104,23 @@ func (e *Engine) prescan() {
 		}
 	}
 	for _, p := range e.Pkgs {
+		var ms []string
+		for n := range p.Members {
+			ms = append(ms, n)
+		}
+		sort.Strings(ms)
+		for _, n := range ms {
+			if t, ok := p.Members[n].(*ssa.Type); ok {
+				if _, isStruct := t.Type().Underlying().(*types.Struct); isStruct {
+					func() {
+						defer func() { recover() }()
+						e.W.SortOf(t.Type())
+					}()
+				}
+			}
+		}
+	}
+	for _, p := range e.Pkgs {
 		for _, m := range p.Members {
 			if g, ok := m.(*ssa.Global); ok {
 				if !written[g] {
